@@ -13,7 +13,7 @@ import itertools
 from .. import core
 
 TERM = {"CRLF": b"\r\n", "LF": b"\n", "CR": b"\r"}
-KINDS = {"id1", "id2", "ev", "d1", "d2", "dsp", "dnone", "r5", "rbad", "cmt", "unk", "blank"}
+KINDS = {"id1", "id2", "id0", "id0n", "ev", "d1", "d2", "dsp", "dnone", "r5", "rbad", "cmt", "unk", "blank"}
 
 
 def expected(rec):
@@ -80,6 +80,42 @@ def check_stream(ctx, rec, deep):
     return None
 
 
+def long_events(ctx):
+    """an event whose data line is MAX_LINE_SIZE-1, MAX_LINE_SIZE, MAX_LINE_SIZE+1 bytes long, each terminator, cut around the
+    end of that line: every fragmentation must give what the whole feed gives (events or the same refusal)"""
+    from hio.core.http import httping
+    mx = httping.MAX_LINE_SIZE
+    runners = [("EventSource", run_source), ("Respondent", lambda fr: run_respondent(fr, False)),
+               ("Respondent(chunked)", lambda fr: run_respondent(fr, True))]
+
+    def outcome(f, frags):
+        try:
+            with core.watchdog():
+                return f(frags)
+        except core.Hang:
+            return {"raised": "did not return"}
+        except Exception as ex:
+            return {"raised": type(ex).__name__}
+    for delta in (-1, 0, 1):
+        for t in ("CRLF", "LF", "CR"):
+            line = b"data: " + b"x" * (mx + delta - 6)
+            data = b"id: 7" + b"\n" + line + TERM[t] + b"\n" + b"data: after\n\n"
+            end = 6 + len(line)
+            cuts = [c for c in range(end - 2, end + 4)]
+            parts = [[data[:i], data[i:]] for i in cuts] + [[data[:i], data[i:j], data[j:]] for i in cuts for j in cuts if j > i]
+            for name, f in runners:
+                ctx.case(("long", name, delta, t))
+                whole = outcome(f, [data])
+                for frags in parts:
+                    got = outcome(f, frags)
+                    if got != whole:
+                        short = lambda o: {k: (v if k != "events" else [(e["id"], e["name"], len(e["data"])) for e in v]) for k, v in o.items()}
+                        ctx.violation("%s: a data line of %d bytes (MAX_LINE_SIZE %+d) ended by %s, cut at %s, gives %s; fed at once: %s" % (
+                            name, len(line), delta, t, [len(x) for x in frags][:-1], short(got), short(whole)),
+                            {"long": {"delta": delta, "t": t, "cuts": list(itertools.accumulate(len(x) for x in frags))[:-1], "runner": name}})
+                        break
+
+
 def run(ctx):
     from . import c13
     gen = {"MCLineFrame.tla": "---- MODULE MCLineFrame ----\nEXTENDS LineFrameGen\nE3 == <<\"CRLF\", \"LF\", \"CR\">>\n====\n"}
@@ -91,11 +127,11 @@ def run(ctx):
     r = ctx.tlc("http", "Sse", core.cfg_text(constants={"Kinds": KINDS, "MaxLines": 3 if ctx.quick else 4}, invariants=inv))
     for v in r.violated:
         ctx.violation("the event stream model violates %s" % v, {"tlc": r.out[-3000:]})
-    short = ctx.tlc("http", "SseGen", core.cfg_text(constants={"Kinds": {"id1", "ev", "d1", "dnone", "r5", "cmt", "blank"}, "MaxLines": 4},
+    short = ctx.tlc("http", "SseGen", core.cfg_text(constants={"Kinds": {"id1", "id0", "ev", "d1", "dnone", "r5", "cmt", "blank"}, "MaxLines": 4},
                                                      constraints=["Emit"]), workers=1).tagged_json("SSE")
     nsim, dep = (500, 7) if ctx.quick else (6000, 9)
     # long streams: TLC picks random initial states (whole streams) in simulation mode
-    long_ = ctx.tlc("http", "SseGen", core.cfg_text(constants={"Kinds": {"id1", "id2", "ev", "d1", "d2", "dsp", "dnone", "r5", "rbad", "unk", "blank"},
+    long_ = ctx.tlc("http", "SseGen", core.cfg_text(constants={"Kinds": {"id1", "id2", "id0", "id0n", "ev", "d1", "d2", "dsp", "dnone", "r5", "rbad", "unk", "blank"},
                                                                 "MaxLines": 5 if ctx.quick else 6}, constraints=["Emit"]),
                     workers=1, simulate="num=%d" % nsim, depth=dep + 2, timeout=600).tagged_json("SSE")
     if len(short) < 400 or len(long_) < nsim // 2:
@@ -107,9 +143,10 @@ def run(ctx):
         bad = check_stream(ctx, rec, deep=(i % 7 == 0) or i >= len(short))
         if bad:
             ctx.violation(bad, {"stream": rec})
+    long_events(ctx)
     ctx.exhaustive = True
-    return ctx.finish(rule="one case per stream (sequence of (line kind, terminator)); all streams of <= 3 lines over 7 kinds + simulated "
-                           "ones of up to 5/6 lines over 11 kinds; each fed whole, bytewise, in every 1-cut (short: every 2-cut) to "
+    return ctx.finish(rule="one case per stream (sequence of (line kind, terminator)); all streams of <= 3 lines over 8 kinds + simulated "
+                           "ones of up to 5/6 lines over 13 kinds (empty id fields among them); each fed whole, bytewise, in every 1-cut (short: every 2-cut) to "
                            "EventSource and (every 7th short, all long) to Respondent plain and chunked",
                       extra={"fragmentations_fed": getattr(ctx, "parts", 0)},
                       assumptions=["a blank LF-terminated line directly after a CR-terminated line is the same bytes as a CRLF and is not "
@@ -118,5 +155,9 @@ def run(ctx):
 
 
 def replay_case(ctx, case):
+    if "long" in case:
+        n = len(ctx.violations)
+        long_events(ctx)
+        return [ctx.violations[n][0]] if len(ctx.violations) > n else []
     bad = check_stream(ctx, case["stream"], True)
     return [bad] if bad else []
